@@ -91,7 +91,7 @@ func (g *gen) transfersTable() []wop {
 	return []wop{
 		{24, g.opTransfer}, {24, g.opNFTTransfer}, {30, g.opMulti},
 		{14, g.lateNetwork}, {3, g.opPayableFlip}, {2, g.opAlias},
-		{2, g.opMint}, {2, g.opCreate}, {1, g.opAddQty}, {3, g.opSysTransfer},
+		{2, g.opMint}, {2, g.opCreate}, {1, g.opAddQty}, {3, g.opSysTransfer}, {3, g.opPayableMatrix}, {2, g.opThinSecondLeg},
 	}
 }
 
@@ -1108,7 +1108,7 @@ func (g *gen) runAdversarial() {
 		g.do(sp)
 		return true
 	}
-	g.loop([]wop{{54, g.opAdversarial}, {18, g.opSemiValid}, {4, opRoles}, {6, g.opAlias}, {3, g.opAliasTokens}, {4, g.opMulti}, {3, g.opNFTTransfer}, {3, g.opTransfer}, {8, g.lateNetwork}})
+	g.loop([]wop{{54, g.opAdversarial}, {18, g.opSemiValid}, {4, opRoles}, {6, g.opAlias}, {3, g.opAliasTokens}, {4, g.opMulti}, {3, g.opNFTTransfer}, {3, g.opTransfer}, {8, g.lateNetwork}, {3, g.opThinSecondLeg}})
 }
 
 // ---------------------------------------------------------------------------
@@ -1206,6 +1206,6 @@ func (g *gen) runDeterminism() {
 	g.loop([]wop{
 		{12, g.opTransfer}, {12, g.opNFTTransfer}, {16, g.opMulti}, {8, g.opMint}, {6, g.opLocalBurn}, {5, g.opESDTBurn},
 		{8, g.opCreate}, {6, g.opAddQty}, {6, g.opNFTBurn}, {3, g.opAddURI}, {3, g.opUpdateAttr}, {3, g.opFreezeThenWipe},
-		{4, g.opSKV}, {3, g.opAnyFunction}, {10, g.lateNetwork}, {2, g.opPayableFlip}, {4, opRoleChurn}, {1, opHandOver},
+		{4, g.opSKV}, {3, g.opAnyFunction}, {10, g.lateNetwork}, {2, g.opPayableFlip}, {4, opRoleChurn}, {1, opHandOver}, {3, g.opFrozenZeroCredit},
 	})
 }
